@@ -181,7 +181,11 @@ func (cx *Connection) prefetch() (err error) {
 
 		cx.bytesRead.Add(uint64(n))
 
-		if err != nil {
+		// A reader may return data together with an error (crypto/tls reports the
+		// close_notify that follows the last record this way): the data is part of
+		// the stream and has to be matched and handled; the error comes back on the
+		// next read.
+		if err != nil && n == 0 {
 			return err
 		}
 
